@@ -12,6 +12,13 @@ Proof.
   intros E. inversion E. tauto.
 Qed.
 
+Lemma id_eqb_sym_bool a b : id_eqb a b = id_eqb b a.
+Proof.
+  destruct (id_eqb a b) eqn:E1, (id_eqb b a) eqn:E2; try reflexivity.
+  - apply id_eqb_spec in E1. subst. assert (id_eqb b b = true) by (now apply id_eqb_spec). congruence.
+  - apply id_eqb_spec in E2. subst. assert (id_eqb a a = true) by (now apply id_eqb_spec). congruence.
+Qed.
+
 Lemma id_eqb_refl a : id_eqb a a = true.
 Proof. now apply id_eqb_spec. Qed.
 
@@ -829,3 +836,200 @@ Lemma checker_sound_thm :
   (forall k len l, short_ok k len l = true -> short_holds k len l) /\
   (forall pfx l r positions, res_spec pfx l r positions = true -> res_holds pfx l r positions).
 Proof. split; [exact short_ok_sound|exact res_spec_sound]. Qed.
+
+(** * change ids: the same id may live in several segments; matches of one id are merged *)
+Definition matching_entries (pfx : id) (segs : list (@table (list nat))) : list (id * list nat) :=
+  flat_map (fun tb => filter (fun e => matches pfx (fst e)) tb) segs.
+Definition classify_change (ms : list (id * list nat)) : resolution (id * list nat) :=
+  match ms with
+  | [] => NoMatch
+  | (k, ps) :: r =>
+    if forallb (fun e => id_eqb (fst e) k) r
+    then SingleMatch (k, rev ps ++ flat_map (fun e => rev (snd e)) r)
+    else AmbiguousMatch
+  end.
+
+Definition change_step (pfx : id) (acc : resolution (id * list nat)) (tb : @table (list nat)) :=
+  match acc with
+  | AmbiguousMatch => acc
+  | _ =>
+    match acc, seg_resolve pfx tb with
+    | NoMatch, NoMatch => NoMatch
+    | NoMatch, SingleMatch (k, ps) => SingleMatch (k, rev ps)
+    | a, NoMatch => a
+    | _, AmbiguousMatch => AmbiguousMatch
+    | SingleMatch (k1, ps1), SingleMatch (k2, ps2) =>
+        if id_eqb k1 k2 then SingleMatch (k1, ps1 ++ rev ps2) else AmbiguousMatch
+    | AmbiguousMatch, _ => AmbiguousMatch
+    end
+  end.
+
+Lemma resolve_change_fold pfx segs :
+  resolve_change pfx segs = fold_left (change_step pfx) segs NoMatch.
+Proof. reflexivity. Qed.
+
+Lemma sorted_filter_distinct {V} (f : id * V -> bool) (tb : @table V) e1 e2 l :
+  sorted_tb tb -> filter f tb = e1 :: e2 :: l -> fst e1 <> fst e2.
+Proof.
+  induction tb as [|e tb IH]; simpl; intros St; [discriminate|]. destruct St as [Hk Sr].
+  destruct (f e).
+  - intros H. injection H as <- H.
+    assert (He2 : In e2 tb).
+    { assert (X : In e2 (filter f tb)) by (rewrite H; now left). now apply filter_In in X. }
+    intros E. pose proof (Hk e2 He2) as L. rewrite E, id_ltb_irrefl in L. discriminate.
+  - now apply IH.
+Qed.
+
+Lemma forallb_app {A} (f : A -> bool) l1 l2 : forallb f (l1 ++ l2) = forallb f l1 && forallb f l2.
+Proof. induction l1 as [|x l IH]; simpl; [reflexivity|]. now rewrite IH, andb_assoc. Qed.
+
+Lemma change_step_ok pfx l0 tb : sorted_tb tb -> long_keys pfx tb ->
+  change_step pfx (classify_change l0) tb =
+  classify_change (l0 ++ filter (fun e => matches pfx (fst e)) tb).
+Proof.
+  intros St Hl. unfold change_step. rewrite (seg_resolve_spec pfx tb St Hl).
+  destruct (filter (fun e => matches pfx (fst e)) tb) as [|[k2 ps2] [|e3 l]] eqn:F; simpl.
+  - rewrite app_nil_r. destruct (classify_change l0) as [|[k1 p1]|]; reflexivity.
+  - destruct l0 as [|[k1 p1] r]; simpl; [now rewrite app_nil_r|].
+    rewrite forallb_app. simpl. rewrite andb_true_r.
+    destruct (forallb (fun e => id_eqb (fst e) k1) r) eqn:A; simpl; [|reflexivity].
+    rewrite (id_eqb_sym_bool k2 k1). destruct (id_eqb k1 k2); [|reflexivity].
+    rewrite flat_map_app. simpl. now rewrite app_nil_r, app_assoc.
+  - pose proof (sorted_filter_distinct _ tb _ _ _ St F) as D. simpl in D.
+    destruct l0 as [|[k1 p1] r]; simpl.
+    + assert (id_eqb (fst e3) k2 = false) as ->.
+      { apply id_eqb_false. congruence. }
+      reflexivity.
+    + rewrite forallb_app. simpl.
+      destruct (forallb (fun e => id_eqb (fst e) k1) r) eqn:A; simpl; [|reflexivity].
+      destruct (id_eqb k2 k1) eqn:E1; simpl; [|reflexivity].
+      apply id_eqb_spec in E1. subst k2.
+      assert (id_eqb (fst e3) k1 = false) as ->.
+      { apply id_eqb_false. congruence. }
+      reflexivity.
+Qed.
+
+Lemma resolve_change_flat pfx : forall (segs : list (@table (list nat))),
+  Forall sorted_tb segs -> Forall (long_keys pfx) segs ->
+  resolve_change pfx segs = classify_change (matching_entries pfx segs).
+Proof.
+  intros segs Fs Fl. rewrite resolve_change_fold.
+  assert (G : forall segs l0, Forall sorted_tb segs -> Forall (long_keys pfx) segs ->
+    fold_left (change_step pfx) segs (classify_change l0) =
+    classify_change (l0 ++ matching_entries pfx segs)).
+  { clear. induction segs as [|tb segs IH]; intros l0 Fs Fl; simpl.
+    - now rewrite app_nil_r.
+    - inversion Fs as [|? ? St Fs']; subst. inversion Fl as [|? ? Lt Fl']; subst.
+      rewrite (change_step_ok pfx l0 tb St Lt). rewrite IH by assumption.
+      unfold matching_entries. simpl. now rewrite app_assoc. }
+  exact (G segs [] Fs Fl).
+Qed.
+
+Section ChangeTheorems.
+  Variable segs : list (@table (list nat)).
+  Hypothesis sorted : Forall sorted_tb segs.
+  Variable w : nat.
+  Hypothesis even_w : Nat.even w = true.
+  Hypothesis same_len : forall x, In x (all_keys segs) -> length x = w.
+  Variable k : id.
+  Hypothesis k_in : In k (all_keys segs).
+
+  Lemma long_keys_change pfx : length pfx <= w -> Forall (long_keys pfx) segs.
+  Proof.
+    intros L. apply Forall_forall. intros tb Htb O e He.
+    assert (Hk : In (fst e) (all_keys segs)).
+    { unfold all_keys. apply in_flat_map. exists tb. split; [assumption|]. now apply in_map. }
+    rewrite (same_len _ Hk).
+    destruct (Nat.eq_dec (length pfx) w) as [E|N]; [|lia].
+    rewrite E in O. rewrite <- Nat.negb_even, even_w in O. discriminate.
+  Qed.
+
+  Lemma change_shortest_le_w : shortest_len k segs <= w.
+  Proof.
+    destruct (shortest_len k segs) as [|m] eqn:E; [lia|].
+    destruct (shortest_len_minimal k segs m sorted E) as (x & Hx & Nx & Hm).
+    pose proof (common_len_lt k x) as C. rewrite (same_len k k_in), (same_len x Hx) in C.
+    specialize (C eq_refl (fun H => Nx (eq_sym H))). lia.
+  Qed.
+
+  Lemma matching_entries_in pfx e :
+    In e (matching_entries pfx segs) <-> (exists tb, In tb segs /\ In e tb) /\ matches pfx (fst e) = true.
+  Proof.
+    unfold matching_entries. rewrite in_flat_map. split.
+    - intros (tb & Htb & He). apply filter_In in He. destruct He as [He Hm]. split; [now exists tb|assumption].
+    - intros [(tb & Htb & He) Hm]. exists tb. split; [assumption|]. apply filter_In. now split.
+  Qed.
+
+  (** the prefix of the shortest length resolves to this change: all its positions, newest
+      segment first *)
+  Theorem change_resolves_back :
+    let pfx := firstn (shortest_len k segs) k in
+    resolve_change pfx segs =
+      SingleMatch (k, flat_map (fun e => rev (snd e)) (matching_entries pfx segs)) /\
+    forall e, In e (matching_entries pfx segs) <-> (exists tb, In tb segs /\ In e tb) /\ fst e = k.
+  Proof.
+    intros pfx. pose proof change_shortest_le_w as Lw.
+    assert (Hkey : forall e, (exists tb, In tb segs /\ In e tb) ->
+                   (matches pfx (fst e) = true <-> fst e = k)).
+    { intros e (tb & Htb & He).
+      assert (Hk : In (fst e) (all_keys segs)).
+      { unfold all_keys. apply in_flat_map. exists tb. split; [assumption|]. now apply in_map. }
+      unfold pfx. rewrite matches_common by (rewrite (same_len k k_in); lia). split.
+      - intros Hm. destruct (list_eq_dec Nat.eq_dec (fst e) k) as [E|N]; [assumption|].
+        pose proof (shortest_len_unique k segs sorted (fst e) Hk N). lia.
+      - intros ->. rewrite common_len_self, (same_len k k_in). lia. }
+    assert (Hin : forall e, In e (matching_entries pfx segs) <->
+                  (exists tb, In tb segs /\ In e tb) /\ fst e = k).
+    { intros e. rewrite matching_entries_in. split; intros [H1 H2]; (split; [assumption|]);
+        now apply (Hkey e H1). }
+    split; [|assumption].
+    rewrite resolve_change_flat; [|assumption|apply long_keys_change; unfold pfx; rewrite firstn_length; lia].
+    assert (Hne : exists e, In e (matching_entries pfx segs)).
+    { unfold all_keys in k_in. apply in_flat_map in k_in. destruct k_in as (tb & Htb & Hk).
+      apply in_map_iff in Hk. destruct Hk as (e & E & He). exists e. apply Hin. split; [now exists tb|assumption]. }
+    destruct (matching_entries pfx segs) as [|[k1 p1] r] eqn:M; [destruct Hne as (e & [])|].
+    simpl. assert (k1 = k) by (apply (Hin (k1, p1)); now left). subst k1.
+    assert (forallb (fun e => id_eqb (fst e) k) r = true) as ->.
+    { apply forallb_forall. intros e He. apply id_eqb_spec, (Hin e). now right. }
+    reflexivity.
+  Qed.
+
+  (** every shorter prefix is ambiguous *)
+  Theorem change_shorter_ambiguous : forall l, l < shortest_len k segs ->
+    resolve_change (firstn l k) segs = AmbiguousMatch.
+  Proof.
+    intros l Ll. pose proof change_shortest_le_w as Lw.
+    destruct (shortest_len k segs) as [|m] eqn:E; [lia|].
+    destruct (shortest_len_minimal k segs m sorted E) as (x & Hx & Nx & Hm).
+    rewrite resolve_change_flat; [|assumption|apply long_keys_change; rewrite firstn_length; lia].
+    assert (Mk : forall y, In y (all_keys segs) -> l <= common_len k y ->
+                 exists e, In e (matching_entries (firstn l k) segs) /\ fst e = y).
+    { intros y Hy Hc. unfold all_keys in Hy. apply in_flat_map in Hy. destruct Hy as (tb & Htb & Hy).
+      apply in_map_iff in Hy. destruct Hy as (e & <- & He). exists e. split; [|reflexivity].
+      apply matching_entries_in. split; [now exists tb|].
+      apply matches_common; [rewrite (same_len k k_in); lia|assumption]. }
+    destruct (Mk k k_in) as (ek & Hek & Ek); [rewrite common_len_self, (same_len k k_in); lia|].
+    destruct (Mk x Hx) as (ex & Hex & Ex); [lia|].
+    destruct (matching_entries (firstn l k) segs) as [|[k1 p1] r] eqn:M; [contradiction|]. simpl.
+    destruct (forallb (fun e => id_eqb (fst e) k1) r) eqn:A; [exfalso|reflexivity].
+    rewrite forallb_forall in A.
+    assert (Eq : forall e, In e ((k1, p1) :: r) -> fst e = k1).
+    { intros e [<-|He]; [reflexivity|]. now apply id_eqb_spec, A. }
+    rewrite <- Ek, <- Ex in Nx. rewrite (Eq ek Hek), (Eq ex Hex) in Nx. congruence.
+  Qed.
+End ChangeTheorems.
+
+Lemma change_resolves_thm (segs : list (@table (list nat))) :
+  Forall sorted_tb segs -> forall w, Nat.even w = true ->
+  (forall x, In x (all_keys segs) -> length x = w) ->
+  forall k, In k (all_keys segs) ->
+  (let pfx := firstn (shortest_len k segs) k in
+   resolve_change pfx segs =
+     SingleMatch (k, flat_map (fun e => rev (snd e)) (matching_entries pfx segs)) /\
+   forall e, In e (matching_entries pfx segs) <-> (exists tb, In tb segs /\ In e tb) /\ fst e = k) /\
+  (forall l, l < shortest_len k segs -> resolve_change (firstn l k) segs = AmbiguousMatch).
+Proof.
+  intros sorted w even_w same_len k k_in. split.
+  - exact (change_resolves_back segs sorted w even_w same_len k k_in).
+  - exact (change_shorter_ambiguous segs sorted w even_w same_len k k_in).
+Qed.
